@@ -53,3 +53,110 @@ theorem C05_network_podman_args_all (E : Env) (path : Str) (u svc : SUnit) (n : 
   exact List.suffix_append _ _
 
 end Cv
+
+/-! ### the same for the other converters
+
+`podman_args_words`: the words of the effective `PodmanArgs=` assignments are exactly systemd's words; the shape theorems of
+QM/ConvCmd.lean place them in the command — after every key-derived option, before the positional arguments. -/
+namespace Cv
+open MM
+
+/-- the words the converters take from `PodmanArgs=` are systemd's words of the effective assignments, in assignment order -/
+theorem podman_args_words (u : SUnit) (sec : Str) (raws : List Str) (wss : List (List Str))
+    (hv : lookupAllValues u sec (s "PodmanArgs") = raws) (hs : AllSplit raws wss) : podmanArgs u sec = wss.flatten := by
+  unfold podmanArgs lookupAllArgs
+  rw [hv]
+  clear hv
+  induction hs with
+  | nil => rfl
+  | cons hd _ ih =>
+    rw [List.flatMap_cons, List.flatten_cons, ih]
+    have e := P.C05_args_eq_systemd _ _ hd
+    unfold splitArgs
+    rw [e]
+
+/-- the same for any argument-style key (`Exec`, `GlobalArgs`, `Mask`, `Secret`, …): `lookup_all_args` = systemd's words -/
+theorem args_words (u : SUnit) (sec key : Str) (raws : List Str) (wss : List (List Str))
+    (hv : lookupAllValues u sec key = raws) (hs : AllSplit raws wss) : lookupAllArgs u sec key = wss.flatten := by
+  unfold lookupAllArgs
+  rw [hv]
+  clear hv
+  induction hs with
+  | nil => rfl
+  | cons hd _ ih =>
+    rw [List.flatMap_cons, List.flatten_cons, ih]
+    have e := P.C05_args_eq_systemd _ _ hd
+    unfold splitArgs
+    rw [e]
+
+theorem C05_image_podman_args (E : Env) (path : Str) (u svc : SUnit) (r : Str) (raws : List Str) (wss : List (List Str))
+    (h : fromImage E path u = .ok (svc, r))
+    (hv : lookupAllValues u (s "Image") (s "PodmanArgs") = raws) (hs : AllSplit raws wss) :
+    (wss.flatten ++ [(lookup u (s "Image") (s "Image")).getD []]) <:+ imageCmd E u := by
+  rw [(C02_image_shape E path u svc r h).2, ← podman_args_words u _ raws wss hv hs, List.append_assoc]
+  exact List.suffix_append _ _
+
+theorem C05_volume_podman_args (E : Env) (path : Str) (u svc : SUnit) (n : Str) (raws : List Str) (wss : List (List Str))
+    (h : fromVolume E path u = .ok (svc, n))
+    (hv : lookupAllValues u (s "Volume") (s "PodmanArgs") = raws) (hs : AllSplit raws wss) :
+    ∃ cmd, HasExec svc "ExecStart" cmd ∧ (wss.flatten ++ [n]) <:+ cmd := by
+  obtain ⟨c2, hx⟩ := C02_volume_shape E path u svc n h
+  refine ⟨_, hx, ?_⟩
+  rw [podman_args_words u _ raws wss hv hs, List.append_assoc]
+  exact List.suffix_append _ _
+
+/-- .pod: the words close the `pod create` command (ExecStartPre) -/
+theorem C05_pod_podman_args (E : Env) (path : Str) (u svc : SUnit) (cts : List Str) (raws : List Str) (wss : List (List Str))
+    (h : fromPod E path u cts = .ok svc)
+    (hv : lookupAllValues u (s "Pod") (s "PodmanArgs") = raws) (hs : AllSplit raws wss) :
+    ∃ cmd, HasExec svc "ExecStartPre" cmd ∧ wss.flatten <:+ cmd := by
+  obtain ⟨maps, nets, vols, hx⟩ := C02_pod_shape E path u svc cts h
+  refine ⟨_, hx, ?_⟩
+  rw [podman_args_words u _ raws wss hv hs]
+  exact List.suffix_append _ _
+
+/-- .kube: … directly before the path of the YAML file -/
+theorem C05_kube_podman_args (E : Env) (path : Str) (u svc : SUnit) (raws : List Str) (wss : List (List Str))
+    (h : fromKube E path u = .ok svc)
+    (hv : lookupAllValues u (s "Kube") (s "PodmanArgs") = raws) (hs : AllSplit raws wss) :
+    ∃ cmd, HasExec svc "ExecStart" cmd ∧ (wss.flatten ++ [absFromUnit path ((lookup u (s "Kube") (s "Yaml")).getD [])]) <:+ cmd := by
+  obtain ⟨maps, nets, hx⟩ := C02_kube_shape E path u svc h
+  refine ⟨_, hx, ?_⟩
+  rw [podman_args_words u _ raws wss hv hs, List.append_assoc]
+  exact List.suffix_append _ _
+
+/-- .build: … directly before the build context -/
+theorem C05_build_podman_args (E : Env) (path : Str) (u svc : SUnit) (raws : List Str) (wss : List (List Str))
+    (h : fromBuild E path u = .ok svc)
+    (hv : lookupAllValues u (s "Build") (s "PodmanArgs") = raws) (hs : AllSplit raws wss) :
+    ∃ cmd tail, HasExec svc "ExecStart" cmd ∧ (wss.flatten ++ tail) <:+ cmd := by
+  obtain ⟨nets, vols, fa, tail, hx⟩ := C02_build_shape E path u svc h
+  refine ⟨_, tail, hx, ?_⟩
+  rw [podman_args_words u _ raws wss hv hs, List.append_assoc]
+  exact List.suffix_append _ _
+
+/-- .container: the words of `PodmanArgs=`, then the image (or `--rootfs <path>`), then the words of the effective `Exec=` —
+    systemd's words in both cases — close the command -/
+theorem C05_container_podman_args_and_exec (E : Env) (path : Str) (u svc : SUnit) (link : Option (Str × Str))
+    (raws : List Str) (wss : List (List Str))
+    (h : fromContainer E path u = some (.ok (svc, link)))
+    (hv : lookupAllValues u (s "Container") (s "PodmanArgs") = raws) (hs : AllSplit raws wss) :
+    ∃ cmd image, HasExec svc "ExecStart" cmd ∧ (wss.flatten ++ containerTail u (s "Container") image) <:+ cmd := by
+  obtain ⟨m1, mounts, podArgs, image, hx⟩ := C02_container_shape E path u svc link h
+  refine ⟨_, image, hx, ?_⟩
+  rw [podman_args_words u _ raws wss hv hs, List.append_assoc]
+  exact List.suffix_append _ _
+
+/-- the words of `Exec=` (last assignment, C15) are systemd's words and they are the last arguments of the command -/
+theorem C05_container_exec_words (u : SUnit) (image raw : Str) (ws : List Str)
+    (hv : lookupLastValue u (s "Container") (s "Exec") = some raw) (hs : P.splitAll P.argFlags raw = some ws) :
+    ws <:+ containerTail u (s "Container") image := by
+  unfold containerTail
+  rw [hv]
+  simp only
+  have e := P.C05_args_eq_systemd raw ws hs
+  unfold splitArgs
+  rw [e]
+  exact List.suffix_append _ _
+
+end Cv
